@@ -115,9 +115,9 @@ mod translate {
 		Nest { nest_type: NestType::Inner, class_name: oc(class).to_owned(), encl_class_name: oc(encl).to_owned(), encl_method: None, inner_name: oc(inner).to_owned(), inner_access: InnerClassFlags::from(0u16) }
 	}
 
-	pub fn body() {
+	pub fn body(all: bool) {
 		// chain p/d in p/c in p/b in p/a; each link may be missing from the table
-		let (nb, nc, nd) = (sym::bool(), sym::bool(), sym::bool());
+		let (nb, nc, nd) = if all { (true, true, true) } else { (sym::bool(), sym::bool(), sym::bool()) };
 		let apply = sym::bool();
 		let mut nests: Nests<()> = Nests::default();
 		// insertion order is not the nesting order on purpose
@@ -140,16 +140,19 @@ mod translate {
 			k += 1;
 		}
 		witness!(nb && nc && nd && apply, "a chain of depth three");
-		witness!(!nc && nd && !apply, "a broken chain, undo direction");
+		witness!(all || (!nc && nd && !apply), "a broken chain, undo direction");
 		core::mem::forget(pairs); core::mem::forget(nests);
 	}
 }
 
-//# {"id":"c14_translation_chain","module":"c14_nest::translate_proofs","props":["C14"],"tier":"quick","cap":1500,"lib":"verif","bound":"translation table of MyRemapper::new for the chain p/d in p/c in p/b in p/a, every subset of the three nests present (symbolic), apply and undo direction; model indexmap; unwind 12","fns":["dukenest::nester_run::MyRemapper::new (build_translation)","duke::tree::class::ObjClassName::from_inner_class"]}
+//# {"id":"c14_translation_depth3","module":"c14_nest::translate_proofs","props":["C14"],"tier":"quick","cap":1500,"bound":"translation table of MyRemapper::new for the full chain p/d in p/c in p/b in p/a (nests inserted in the order d, b, c), apply and undo direction (symbolic); model indexmap; unwind 12","fns":["dukenest::nester_run::MyRemapper::new (build_translation)","duke::tree::class::ObjClassName::from_inner_class"]}
+//# {"id":"c14_translation_chain","module":"c14_nest::translate_proofs","props":["C14"],"tier":"thorough","cap":3600,"bound":"translation table of MyRemapper::new for the chain p/d in p/c in p/b in p/a, every subset of the three nests present (symbolic), apply and undo direction; model indexmap; unwind 12","fns":["dukenest::nester_run::MyRemapper::new (build_translation)","duke::tree::class::ObjClassName::from_inner_class"]}
 pub mod translate_proofs {
 	use crate::proofs;
 	proofs! {
 		#[cfg_attr(kani, kani::unwind(12))]
-		fn c14_translation_chain() { super::translate::body(); }
+		fn c14_translation_chain() { super::translate::body(false); }
+		#[cfg_attr(kani, kani::unwind(12))]
+		fn c14_translation_depth3() { super::translate::body(true); }
 	}
 }
